@@ -22,17 +22,31 @@ package shrex
 //@ extern (github.com/libp2p/go-libp2p/core/network.ResourceScope).ReleaseMemory
 //@   effect $MemHeld := false
 
+//   $ReaderOK   - the response for this request was prepared without error
+//   $StatusSent - a status message was written to the stream
+// One status per request: OK only once the response is ready (a request that turns out to be out of
+// bounds for the block, or any accessor failure, is answered INTERNAL, not OK followed by garbage);
+// NOT_FOUND exactly when the store reports that it does not hold the height.
+//@ extern (github.com/celestiaorg/celestia-node/share/shwap/p2p/shrex.request).ResponseReader
+//@   effect $ReaderOK := err == nil
+
 //@ func respondStatus
 //@   property C09
 //@   nopanic
+//@   requires !$StatusSent
+//@   effect $StatusSent := true
 //@   requires status == shrexpb.Status_INTERNAL || status == shrexpb.Status_NOT_FOUND || status == shrexpb.Status_OK
 //@   ensures result0 == statusSendStatusErr || (status == shrexpb.Status_INTERNAL && result0 == statusInternalErr) || (status == shrexpb.Status_NOT_FOUND && result0 == statusNotFound) || (status == shrexpb.Status_OK && result0 == statusSuccess)
 
 //@ func (*Server).handleDataRequest
 //@   property C09
 //@   noframe
-//@   requires !$AccOpen && !$MemHeld && !$Validated
+//@   requires !$AccOpen && !$MemHeld && !$Validated && !$StatusSent && !$ReaderOK
 //@   callpre AccessorGetter).GetByHeight: $Validated
+//@   callpre respondStatus: $arg1 == shrexpb.Status_OK ==> $ReaderOK
+//@   callpre respondStatus: $arg1 == shrexpb.Status_NOT_FOUND ==> !$AccOpen && is(err, store.ErrNotFound)
+//@   callpre respondStatus: !$AccOpen && is(err, store.ErrNotFound) ==> $arg1 == shrexpb.Status_NOT_FOUND
+//@   callpre io.Copy: $StatusSent && $ReaderOK
 //@   callpre request).ResponseReader: $AccOpen && $MemHeld
 //@   ensures !$AccOpen && !$MemHeld
 //@   ensures result0 == statusBadRequest || result0 == statusReadReqErr ==> result1 == 0
